@@ -9,3 +9,10 @@ import TeosVerif.Props.C02
 #print axioms Teos.C02.rebroadcast_only_tracker_penalty
 #print axioms Teos.C02.responded_implies_node_has
 #print axioms Teos.C02.disconnect_updates_cache
+#print axioms Teos.C02.start_inv
+#print axioms Teos.C02.every_broadcast_is_justified
+#print axioms Teos.C02.next_operation_submits_only_for_held_appointments
+#print axioms Teos.C02.responded_only_when_justified
+#print axioms Teos.C02.held_appointments_were_accepted
+#print axioms Teos.C02.restart_keeps_justification
+#print axioms Teos.C02.send_call_sites_are_the_modelled_ones
